@@ -12,7 +12,9 @@
 (*   Poll       poll: decoded results -> answer / retry; head round        *)
 (*              complete -> best-head rule, every waiting caller answered  *)
 (*   Stop       on_stop                                                    *)
-(*   PeerConn / PeerDisc / PeerArch   peer tracker changes                 *)
+(*   PeerConn / PeerDisc / PeerArch   peer tracker changes (a peer may be   *)
+(*              marked archival while not connected; disconnecting clears  *)
+(*              the mark, connecting keeps it)                             *)
 (* A non-head request starts in queue Any with 3 tries; a failed attempt   *)
 (* with tries left is re-queued, the last try goes to queue Archival.      *)
 (* Every action yields the observable events of HxClientProp; the monitor  *)
@@ -65,7 +67,8 @@ Step(act, evs) ==
     /\ last' = [act |-> act, evs |-> evs]
 
 Init ==
-    /\ trusted \in SUBSET Peers /\ conn \in SUBSET Peers /\ arch \in SUBSET conn
+    /\ trusted \in SUBSET Peers /\ conn \in SUBSET Peers
+    /\ arch \in SUBSET Peers     \* a peer can be marked archival without (ever) being connected
     /\ stopped = FALSE /\ asked = {} /\ cancelled = {} /\ answered = {}
     /\ pending = {} /\ inflight = {} /\ decoded = {}
     /\ headq = {} /\ headSched = FALSE /\ round = 0 /\ roundIds = {} /\ roundRes = {}
@@ -216,7 +219,7 @@ PeerDisc(p) ==
     /\ UNCHANGED <<trusted, stopped, asked, cancelled, answered, pending, inflight, decoded, headq, headSched,
                    round, roundIds, roundRes, done>>
 PeerArch(p) ==
-    /\ ~done /\ pe < MaxPeerEvents /\ p \in conn \ arch
+    /\ ~done /\ pe < MaxPeerEvents /\ p \in Peers \ arch    \* connected or not (mark_as_archival)
     /\ arch' = arch \cup {p} /\ pe' = pe + 1
     /\ Step(Act("arch", 0, p, "", 0, 0), <<EPeer("arch", p)>>)
     /\ UNCHANGED <<conn, trusted, stopped, asked, cancelled, answered, pending, inflight, decoded, headq, headSched,
@@ -245,7 +248,7 @@ Spec == Init /\ [][Next]_vars
 (* ---- the design satisfies the properties ---- *)
 MonitorOK == mon.bad = ""
 TypeOK ==
-    /\ arch \subseteq conn /\ answered \subseteq asked /\ cancelled \subseteq asked
+    /\ answered \subseteq asked /\ cancelled \subseteq asked
     /\ \A r \in pending : r.tries \in 1..3 /\ (r.kind = "arch" <=> r.tries = 1)
     /\ \A r \in inflight : r.c # 0 => r.tries \in 0..2
 \* the monitor's view of the environment is the model's
